@@ -466,6 +466,8 @@ def trees(depth, wide_maps=True):
 
 
 USER = ["Foo", "Bar", "Baz", "Item", "Node"]
+# prefixes, incl. some that are leading parts of / equal to user type and parameter names
+NAME_PREFIXES = ["", "Pf", "OP", "X_", "F", "Foo", "Ba", "Node", "T", "It"]
 GENS = ["T", "U", "K"]
 QUALS = {"Vec": ["std", "vec"], "Option": ["std", "option"], "HashMap": ["std", "collections"], "String": ["std", "string"],
          "Box": ["std", "boxed"], "Arc": ["std", "sync"], "Rc": ["std", "rc"], "U53": ["typeshare"], "I54": ["typeshare"],
@@ -552,7 +554,7 @@ def rand_cfg(rng, lang, syn):
             key = rng.choice(["Vec<u8>", "HashMap<String,u8>", "HashMap<String, u8>", "Option<Vec>", "Option<Vec<u8>>",
                               "[u8]", "&[u8]", "u8", "String", "()", "Vec<Foo>", "Option<Foo>"])
         tm[key] = rng.choice(MAPPED_NAMES)
-    return cfg_for(lang, tm, prefix=rng.choice(["", "Pf", "OP", "X_"]), nps=rng.random() < 0.5)
+    return cfg_for(lang, tm, prefix=rng.choice(NAME_PREFIXES), nps=rng.random() < 0.5)
 
 
 # ------------------------------------------------------------------ running a batch
